@@ -30,7 +30,7 @@ RULE = ("sequential: op scripts (alloc/write/commit/fetch/rmove, protocol-guarde
         "sizes 1 byte .. half the ring incl. the footprint boundaries 64k-8/64k-7, a drained-position sweep (every "
         "reachable p x every need) and seeded random scripts steered to put the wrap marker at every slot; concurrent: "
         "1 reader + 1 writer (or 2..3 writers under the write lock) x seeded random schedules x writer killed after each "
-        "of its visible operations; non-trivial = the script wraps (marker placed) or refuses an allocation / the trace "
+        "of its visible operations, plus a full-ring release-window sweep (reader pre-empted at every point around its read_cursor store); non-trivial = the script wraps (marker placed) or refuses an allocation / the trace "
         "interleaves reader and writer inside a call; distinct = distinct script / trace text")
 TRUSTED_BASE = [
     "modelled, not verified: the mmap/SysV key handling of shm.c (smoke-tested through muggle_shm_ringbuf_open on a real segment; bulk cases interpose muggle_shm_open with an exact-size heap block); uint32 cursor arithmetic is modelled with explicit mod 2^32",
@@ -44,6 +44,7 @@ ASSUMPTIONS = ["message length >= 1 (length 0 is the wrap marker's encoding); on
 EVIDENCE_NOTES = [
     "sequential theorems proved in full (shm_seq_refines_fifo, shm_alloc_no_overlap, shm_indices_in_range, shm_drained_accepts_partial with the exact iff, shm_drained_half_refuted); the property's clause 'a drained ring accepts up to half its size' is REFUTED (known finding drained-half)",
     "concurrent layer proved in full: shm_conc_inv_reachable (reachable-state invariant CInv of C08/ProofsConcInv.v for every schedule, ring size, number of writers under the write lock or one writer without it, script, retry bound and kill point; consequences: no uncovered plain read under the extracted memory orders, no store into an unread message or the live marker, delivered is a prefix of committed with exact line / length / payload tag, unread messages intact in memory) and shm_crash_safe as its corollary (any schedule followed by reader-only steps); shm_reader_only_frame holds from any state.  The interleaving model is tied to the code on every run by trace acceptance (1 reader + 1 writer, 2-3 locked writers, writer killed after each atomic operation) with the model's ghost monitors and the independent trace monitor",
+    "release window: the concurrent generator contains a deterministic pre-emption sweep on a FULL ring (writer polling w_alloc for the lines the reader is about to release, reader stopped at every scheduling point around its read_cursor store, explicit schedules): plain accesses after the last atomic operation of r_move belong to the next plain segment of the reader and are separated from the store by a scheduling point (vs_after), so a store / read of the released line after the release is exposed; refuted variant shm_reader_wipe_after_release_refuted (seeded C08-8) violates the reader frame clause rstep_frame / shm_reader_only_frame",
     "translator tie: an edit of shm_ring_buffer.c that changes the value of cached_remain / write_cursor / read_cursor / the cached header line / the header words written / the NULL-or-line result of one of the six functions anywhere in the domain, or makes it unsliceable, breaks a gen_*_matches_model obligation even when no generated history reaches the difference; guard clauses, hoisted locals, helper functions and signed/unsigned reformulations with the same value keep it (checked on refactored/C08-A, C08-B).  Not in the translator tie (differential + trace acceptance only): muggle_shm_ringbuf_open's size computation (calls muggle_next_pow_of_2, memset, shm), the payload bytes, the memory orders (extracted separately), is_ready",
     "not covered by theorems (modelled): payload bytes are abstracted to a tag per message in the interleaving model (byte-exactness is proved in the sequential model and checked by the drivers); the SC + release/acquire-view memory model stands in for C11",
 ]
@@ -624,6 +625,7 @@ def _conc_cases(rng, tier):
         seed, stick, tries = rng.below(1 << 30), rng.choice([20, 50, 80]), rng.choice([1, 2, 4])
         for k in range(0, 4 * len(sc) * tries + 2):
             cases.append(_conc("ckill-%d-%d" % (i, k), n, 0, k, tries, [sc], "rand %d %d 0 0" % (seed, stick)))
+    cases += _release_window_cases(tier)
     k2 = 90 if tier == "quick" else 2000
     for i in range(k2):
         n = rng.choice([8, 16, 16, 32, 64])
@@ -644,6 +646,33 @@ def _code_orders():
         m = re.search(r"%s := (\w+)" % field, txt)
         vals.append(m.group(1) if m else "MoNone")
     return vals
+
+
+def _release_window_cases(tier):
+    """FULL ring, the writer polling w_alloc for exactly the lines the reader is about to release, the reader
+    pre-empted at EVERY scheduling point around its read_cursor store (deterministic sweep with explicit
+    schedules: writer runs W points (fills the ring, keeps retrying), reader runs K points, writer runs long
+    enough to take the released lines and commit into them, then round robin).  The first message is the one
+    at line 0, so the writer's wrap puts the next header exactly on the header line just released: anything the
+    reader still does to that line after its release store (or any read of it after the store) hits a
+    committed unread message."""
+    cases = []
+    for n in (8, 16, 32):
+        first_need = 4 if n == 8 else 7
+        first = CL * (first_need - 2) - HDR              # footprint first_need lines at line 0
+        fill = []
+        w = first_need
+        while n - w - 1 >= 3:
+            fill.append(1 + len(fill))
+            w += 3
+        # after the fill nothing fits on the right; what follows needs the released lines at 0 (wrap)
+        tail = [3, 5, 7][: max(1, (first_need - 1) // 3)]
+        script = [(first, 10)] + [(x, 20 + i) for i, x in enumerate(fill)] + [(x, 40 + i) for i, x in enumerate(tail)] + [(1, 60)]
+        for W in ((12 + 2 * len(fill), 40) if tier == "quick" else (10 + 2 * len(fill), 12 + 2 * len(fill), 30, 40, 60)):
+            for K in range(1, 15 if tier == "quick" else 31):
+                sched = "list - " + " ".join(["1"] * W + ["0"] * K + ["1"] * 60)
+                cases.append(_conc("cwin-n%d-W%d-K%d" % (n, W, K), n, 0, -1, 60, [script], sched))
+    return cases
 
 
 def model_cases(cases, impl_results):
